@@ -8,6 +8,12 @@
 (*                   materialized; digests of pg.to_json(template) before / *)
 (*                   after decode / encode / materialize                   *)
 (*   iter            list(pg.iter(value, where=...)) projected ; hasiter   *)
+(*   bind_rejected   building the value (binding placeholders to the value *)
+(*                   specs of typed fields) raised                         *)
+(*   json            <<stage, digest of pg.to_json(user's value)>> after   *)
+(*                   every use, from the moment the value is built         *)
+(*   hist            <<tree of the unfiltered space, decode by an unfiltered*)
+(*                   template built before / after the filtered uses>>     *)
 (***************************************************************************)
 EXTENDS Hyper, Json, IOUtils
 
@@ -34,16 +40,17 @@ DnaLaws(i, t, w, sp, f, dist, x) ==
   \o SeqIf(~OnlyFilteredLeft(w, x.decoded), Fail(i, "placeholder_left", <<x.tree, x.decoded>>))
   \o SeqIf(x.is_det # Deterministic(x.decoded), Fail(i, "is_deterministic_flag", <<x.tree, x.is_det>>))
   \o SeqIf(x.decoded_again # x.decoded \/ ~x.twice_eq, Fail(i, "decode_twice_differs", <<x.tree, x.decoded_again>>))
-  \* encode raising although the value came out of decode, in the one situation where today's encode is known
-  \* to ignore the filter: a rejected placeholder left inside a candidate of a selected choice
-  \o LET nested == x.encoded = Bad /\ w # "all" /\ NestedFiltered(t, w) /\ ~Deterministic(x.decoded) IN
-     SeqIf(nested, Fail(i, "encode_raises_on_filtered_placeholder_inside_selected_choice", <<x.tree, x.decoded>>))
+  \* C13-F1: today's encode walks the UNFILTERED choice.  Whenever a selected choice has a candidate containing a
+  \* placeholder the filter rejects, encode of a decoded value may raise (the placeholder is still in the value) or
+  \* match the wrong candidate (an unfiltered Float claims a constant): any inverse failure in exactly that
+  \* situation is attributed to this one law; everywhere else the inverse laws keep their own names
+  \o LET nested == w # "all" /\ NestedFiltered(t, w)
+         broken == (dist /\ x.encoded # x.tree) \/ x.redecoded # x.decoded IN
+     SeqIf(nested /\ broken, Fail(i, "encode_raises_on_filtered_placeholder_inside_selected_choice", <<x.tree, x.decoded, x.encoded>>))
      \o SeqIf(~nested /\ dist /\ x.encoded # x.tree, Fail(i, "encode_not_inverse", <<x.tree, x.encoded>>))
      \o SeqIf(~nested /\ x.redecoded # x.decoded, Fail(i, "decode_of_encode_differs", <<x.tree, x.encoded, x.redecoded>>))
   \o SeqIf(x.materialized # x.decoded, Fail(i, "materialize_differs", <<x.tree, x.materialized>>))
-  \o SeqIf(x.json_after_decode # x.json_before, Fail(i, "template_modified_by_decode", x.tree))
-  \o SeqIf(x.json_after_encode # x.json_before, Fail(i, "template_modified_by_encode", x.tree))
-  \o SeqIf(x.json_after_materialize # x.json_before, Fail(i, "template_modified_by_materialize", x.tree))
+  \o SeqIf(~TypedFieldsOK(x.decoded), Fail(i, "decoded_value_rejected_by_bound_spec", <<x.tree, x.decoded>>))
 
 IterLaws(i, t, w, sp, f, dist, o) ==
   LET it == o.iter
@@ -52,13 +59,36 @@ IterLaws(i, t, w, sp, f, dist, o) ==
   IN SeqIf(Len(it) # Size(sp), Fail(i, "iter_count", <<Len(it), Size(sp)>>))
   \o SeqIf(dist /\ Cardinality(Range(it)) # Len(it), Fail(i, "iter_not_pairwise_different", <<Len(it), Cardinality(Range(it))>>))
   \o SeqIf(it # ref, Fail(i, "iter_values", <<Len(it)>>))
-  \o SeqIf(o.json_after_iter # o.json_before, Fail(i, "template_modified_by_iter", 0))
+
+\* the user's hyper value is judged by its serialised form after every use, starting when it is built:
+\* o.json = << <<stage, digest>>, ... >>, first stage "built"
+PurityLaws(i, o) ==
+  LET bad == { j \in 1..Len(o.json) : o.json[j][2] # o.json[1][2] } IN
+  SeqIf(bad # {}, Fail(i, "hyper_value_modified", <<o.json[Min(bad \cup {Len(o.json)})][1]>>))
+
+\* the same value object used with the filter and without it (both orders): the unfiltered space and the
+\* unfiltered decodes are those of the template, whatever was done to the value before
+HistoryLaws(i, t, o) ==
+  LET spa == TemplateSpec(t, "all")
+      fa == [d \in Valid(spa) |-> Tree(spa, d)]
+      bad == { j \in 1..Len(o.hist) :
+                 \/ ~\E d \in DOMAIN fa : fa[d] = o.hist[j][1]
+                 \/ LET d == CHOOSE dd \in DOMAIN fa : fa[dd] = o.hist[j][1]
+                    IN o.hist[j][2] # Decode(t, "all", d) \/ o.hist[j][3] # Decode(t, "all", d) }
+  IN SeqIf(o.spec_all_after # spa, Fail(i, "unfiltered_space_after_filtered_use", o.spec_all_after))
+  \o SeqIf(bad # {}, Fail(i, "unfiltered_decode_after_filtered_use", o.hist[Min(bad \cup {Len(o.hist)})]))
 
 Failures(i) ==
   LET o == Obs[i]
       t == o.tmpl
       w == o.wh
-      sp == TemplateSpec(t, w)
+  IN
+  \* binding: a placeholder whose values the field's spec would reject must be refused when the value is built
+  IF ~WellTyped(t)
+  THEN SeqIf(~o.bind_rejected, Fail(i, "bind_accepts_placeholder_exceeding_value_spec", 0))
+  ELSE IF o.bind_rejected THEN Fail(i, "bind_rejects_acceptable_placeholder", 0)
+  ELSE
+  LET sp == TemplateSpec(t, w)
       f == [d \in Valid(sp) |-> Tree(sp, d)]
       dist == Distinguishable(t, w)
   IN SeqIf(o.errs # <<>>, Fail(i, "unexpected_exception", o.errs))
@@ -66,6 +96,8 @@ Failures(i) ==
   \o SeqIf(o.size # Size(sp), Fail(i, "space_size", <<o.size, Size(sp)>>))
   \o FlattenSeq([j \in 1..Len(o.dnas) |-> DnaLaws(i, t, w, sp, f, dist, o.dnas[j])])
   \o SeqIf(o.hasiter, IterLaws(i, t, w, sp, f, dist, o))
+  \o PurityLaws(i, o)
+  \o SeqIf(o.hashist, HistoryLaws(i, t, o))
 
 AllFailures == FlattenSeq([i \in 1..Len(Obs) |-> Failures(i)])
 
